@@ -598,6 +598,12 @@ impl Cursor for BlockCursor {
             return Err(corruption_block_with_zero_restarts());
         }
 
+        // An empty block holds no key-value pair; every seek lands past the end.
+        if self.block.restarts_boundary == 0 {
+            self.position = CursorPosition::Last;
+            return Ok(());
+        }
+
         // Binary search to the correct restart point.
         let mut left: usize = 0usize;
         let mut right: usize = self.block.num_restarts - 1;
@@ -731,6 +737,11 @@ impl Cursor for BlockCursor {
     fn next(&mut self) -> Result<(), SError> {
         // We start with the first block.
         if let CursorPosition::First = self.position {
+            // An empty block holds no key-value pair; the next of First is Last.
+            if self.block.restarts_boundary == 0 {
+                self.position = CursorPosition::Last;
+                return Ok(());
+            }
             self.seek_restart(0)?;
             return Ok(());
         }
